@@ -116,13 +116,16 @@ def finish(rep, replay_filter=None):
             if i.nontrivial:
                 nontrivial.add(i.key)
         print('[%s] %-10s %3d instance(s), %d not met (floor %d)  %s' % (prop, r.rid, n, nbad, r.floor, r.text))
-        if n < r.floor and replay_filter is None:
+        if n < r.floor and replay_filter is None and nbad == 0:
             floor_fail.append('%s: %d instance(s) found, floor is %d' % (r.rid, n, r.floor))
     if floor_fail:
         raise AnalysisBroken('instance floor not reached (vacuous pass guard): ' + '; '.join(floor_fail))
     for i in known_hits:
         print('KNOWN-FINDING: property=%s %s at %s in %s: %s' % (prop, i.key, i.where, i.func, known_keys[i.key].get('what', i.detail)))
     evdir = os.path.join(VERIF, 'evidence')
+    if os.environ.get('NIX_NO_EVIDENCE'):
+        # analysing a scratch copy (checker validation): never touch the real evidence
+        evdir = os.path.join(rep.prog.repo, '_evidence')
     os.makedirs(evdir, exist_ok=True)
     rng = random.Random(rep.seed)
     all_inst = [i for r in rep.rules for i in r.instances]
